@@ -10,7 +10,8 @@ from . import _c06_common as cm
 ID = 'C07'
 LG = 'mitxgraders/listgrader.py'
 MK = 'mitxgraders/helpers/munkres.py'
-FILES = [LG, MK]
+BASE = 'mitxgraders/baseclasses.py'
+FILES = [LG, MK, BASE]
 
 EXPLANATION = (
     "Normal-form / ordering / role rules over listgrader.py against the reference formula A5 "
@@ -34,7 +35,9 @@ EXPLANATION = (
     "matching, not a proof of optimality; (D8) find_optimal_order builds one row per submitted item and one column per expected "
     "item, hands the solver a cost that is a strictly decreasing *affine* function of the item credit (int/round/floor/ceil/// "
     "wrappers are recognised as lossy: the matching would be optimised over rounded credits while credits are summed unrounded) "
-    "and reads the pairs back as [row][col] in row order.")
+    "and reads the pairs back as [row][col] in row order (one result per row of the padded matrix); (D9) ItemGrader.check reports the "
+    "highest grade over the alternative lists: max(...) selection, or a running best whose replacement test is evaluated over the "
+    "nine order classes (score <,=,> x message length <,=,>): a higher score always replaces, a lower one never.")
 NOT_DECIDED = (
     "permutation invariance and the exhaustive optimum of the unordered matching (they rest on C06's undecided "
     "optimality clause; C05-D2 decides only that the right matrix is handed over and read back), floating-point "
@@ -46,7 +49,7 @@ SLG = 'mitxgraders.listgrader.SingleListGrader'
 
 def check(ctx):
     idx = ctx.index
-    for fn in (d1_formula, d2_single_return, d3_process, d4_check_response, d5_padding, d6_infer, d7_solver, d8_matrix):
+    for fn in (d1_formula, d2_single_return, d3_process, d4_check_response, d5_padding, d6_infer, d7_solver, d8_matrix, d9_best):
         cm.guarded(ctx, fn, idx)
 
 
@@ -826,7 +829,7 @@ def _grading(r, idx, fi, selfn, ANS, STU):
     if CK is None:
         r.undecided(construct, 'padded_check(...) not bound to a local', lib.loc(fi, pc))
         return
-    a = pc.args[0] if pc.args else None
+    a = cm.value_of(fi, pc.args[0]) if pc.args else None
     good = a is not None and isinstance(a, ast.Attribute) and a.attr == 'check' and lib.is_config(a.value, 'subgrader')
     r.check(good, construct, "padded_check(config['subgrader'].check)", 'padded_check wraps `%s`' % short(a), lib.loc(fi, pc))
 
@@ -869,8 +872,17 @@ def _grading(r, idx, fi, selfn, ANS, STU):
             r.undecided(construct, '`%s`' % short(c), where)
             continue
         f, x, y = c.args
+        fv = cm.value_of(fi, f) if isinstance(f, ast.Name) else f
+        raw_check = isinstance(fv, ast.Attribute) and fv.attr == 'check' and lib.is_config(fv.value, 'subgrader')
+        if raw_check and (role_of(x), role_of(y)) == ('unpadded answers', 'unpadded inputs'):
+            from . import c05
+            pr, pck = c05.internal_padding(idx)
+            if len(pr) == 2 and sorted(pr.values()) == ['answers', 'student_list'] and pck:
+                r.ok(construct, 'find_optimal_order(check, answers, inputs): padding and the padded checker are applied inside '
+                     'find_optimal_order (its matrix is checked by D8)', where)
+                continue
         if not cm.is_name(f, CK):
-            if isinstance(f, ast.Attribute) and f.attr == 'check':
+            if raw_check or (isinstance(f, ast.Attribute) and f.attr == 'check'):
                 r.violation(construct, 'the raw subgrader check is used instead of the padded checker: padding objects reach the subgrader', where)
             else:
                 r.undecided(construct, 'checker `%s`' % short(f), where)
@@ -1394,7 +1406,147 @@ def d8_matrix(ctx, idx):
     r = ctx.rule('D8.MATRIX', 'find_optimal_order: rows = submitted items, columns = expected items, cost strictly decreasing and affine in '
                  'the item credit (no rounding), results read back as [row][col] in row order', floor=11)
     with r:
-        c05.matrix_body(r, idx)
+        c05.matrix_body(r, idx, lists_may_differ=True)
+
+
+# ------------------------------------------------------------------------------- D9
+def _order_eval(e, R, I, sr, lr):
+    """Value of a comparison-built expression over two results R (candidate) and I (incumbent) whose scores compare as sr and whose
+    message lengths compare as lr (-1, 0, +1): the complete domain of the two order relations.  None = not evaluable."""
+    def val(x):
+        if isinstance(x, ast.Constant) and isinstance(x.value, (int, float, bool)):
+            return x.value
+        if cm.sub_key(x) == 'grade_decimal' and isinstance(x.value, ast.Name):
+            return sr if x.value.id == R else 0 if x.value.id == I else None
+        if cm.is_call_to(x, 'len', 1) and cm.sub_key(x.args[0]) == 'msg' and isinstance(x.args[0].value, ast.Name):
+            return lr if x.args[0].value.id == R else 0 if x.args[0].value.id == I else None
+        if isinstance(x, ast.Tuple):
+            vs = [val(y) for y in x.elts]
+            return None if any(v is None for v in vs) else tuple(vs)
+        if isinstance(x, ast.UnaryOp) and isinstance(x.op, ast.Not):
+            v = val(x.operand)
+            return None if v is None else (not v)
+        if isinstance(x, ast.BoolOp):
+            vs = [val(y) for y in x.values]
+            if any(v is None for v in vs):
+                return None
+            return all(vs) if isinstance(x.op, ast.And) else any(vs)
+        if isinstance(x, ast.Compare):
+            import operator as _op
+            ops = {ast.Eq: _op.eq, ast.NotEq: _op.ne, ast.Lt: _op.lt, ast.LtE: _op.le, ast.Gt: _op.gt, ast.GtE: _op.ge}
+            left = val(x.left)
+            res = True
+            for o, c in zip(x.ops, x.comparators):
+                right = val(c)
+                if left is None or right is None or type(o) not in ops or isinstance(left, bool) != isinstance(right, bool) and False:
+                    return None
+                try:
+                    res = res and ops[type(o)](left, right)
+                except TypeError:
+                    return None
+                left = right
+            return res
+        return None
+    return val(e)
+
+
+def d9_best(ctx, idx):
+    r = ctx.rule('D9.BEST', 'over the alternative answer lists the reported grade is the highest one', floor=1)
+    with r:
+        fi = idx.func('mitxgraders.baseclasses.ItemGrader.check')
+        construct = 'ItemGrader.check: best alternative'
+        loops = [x for x in walk_own(fi.node) if isinstance(x, ast.For)]
+        if not loops:
+            raise AnalysisError('ItemGrader.check: no loop over the answers')
+        # (A) all results collected, best chosen by max over grade_decimal
+        maxes = [c for c in walk_own(fi.node) if isinstance(c, ast.Call) and nf.callee_name(c) in ('max', 'min')
+                 and any(cm.sub_key(n) == 'grade_decimal' for n in ast.walk(c))]
+        if maxes:
+            if all(nf.callee_name(c) == 'max' for c in maxes):
+                r.ok(construct, 'the highest grade_decimal of all graded alternatives is selected (details: C08)', lib.loc(fi, maxes[0]))
+            else:
+                r.violation(construct, 'the *lowest* grade of the alternatives is selected (`%s`)' % short(maxes[0]), lib.loc(fi, maxes[0]))
+            return
+        # (B) running best: `if best is None or BETTER(result, best): best = result`
+        cands = []
+        for n in walk_own(fi.node):
+            if isinstance(n, ast.If) and any(x is n for lp in loops for x in ast.walk(lp)):
+                asg = [a for a in n.body if isinstance(a, ast.Assign) and len(a.targets) == 1 and isinstance(a.targets[0], ast.Name)
+                       and isinstance(a.value, ast.Name)]
+                if len(asg) == 1:
+                    cands.append((n, asg[0].targets[0].id, asg[0].value.id))
+        if len(cands) != 1:
+            raise AnalysisError('ItemGrader.check: neither a max(...) selection nor a running-best update was recognised')
+        node, BEST, RES = cands[0]
+        test = nf.canon(node.test)
+        parts = nf.disjuncts(test)
+        first = [p_ for p_ in parts if nf.match('%s is None' % BEST, p_) is not None]
+        rest = [p_ for p_ in parts if p_ not in first]
+        if not first or len(rest) != 1:
+            r.undecided(construct, 'update condition `%s`' % short(test), lib.loc(fi, node))
+            return
+        pred = rest[0]
+        helper = None
+        if isinstance(pred, ast.Call) and len(pred.args) == 2 and not pred.keywords:
+            targets, how = idx.resolve_call(fi, pred)
+            targets = [t for t in targets if not isinstance(t, tuple)]
+            if len(targets) == 1:
+                helper = targets[0]
+        table = {}
+        for sr in (-1, 0, 1):
+            for lr in (-1, 0, 1):
+                if helper is not None:
+                    hp = helper.params if helper.is_static or helper.cls is None else helper.params[1:]
+                    if len(hp) != 2:
+                        raise AnalysisError('helper %s does not take (result, incumbent)' % helper.qualname)
+                    roles = {}
+                    for pn, a in zip(hp, pred.args):
+                        roles[pn] = 'R' if cm.is_name(a, RES) else 'I' if cm.is_name(a, BEST) else None
+                    if sorted(v or '' for v in roles.values()) != ['I', 'R']:
+                        raise AnalysisError('arguments of `%s` are not (result, incumbent)' % short(pred))
+                    Rn = [k for k, v in roles.items() if v == 'R'][0]
+                    In = [k for k, v in roles.items() if v == 'I'][0]
+                    out = None
+                    for p_ in cm.split_conditional_returns(nf.decision_paths(cm.guard_clause_nesting(helper.node.body))):
+                        gv = [_order_eval(g, Rn, In, sr, lr) for g in p_.guards]
+                        if None in gv:
+                            out = 'unknown'
+                            break
+                        if all(gv):
+                            if p_.leaf.kind != 'ret':
+                                out = 'unknown'
+                            else:
+                                v = _order_eval(p_.leaf.expr, Rn, In, sr, lr)
+                                out = 'unknown' if v is None else bool(v)
+                            break
+                    table[(sr, lr)] = out
+                else:
+                    v = _order_eval(pred, RES, BEST, sr, lr)
+                    table[(sr, lr)] = 'unknown' if v is None else bool(v)
+        where = lib.loc(fi, node)
+        if any(v in ('unknown', None) for v in table.values()):
+            r.undecided(construct, 'the replacement test `%s` could not be evaluated over the 9 order classes' % short(pred), where)
+            return
+        if helper is not None and helper.qualname in (getattr(idx, 'unreviewed', []) or []):
+            # the finding is about the new helper itself, every decision path of which was evaluated: name it in the construct
+            # (the engine treats findings about an un-inlined helper as definite only then)
+            q = helper.qualname
+            construct = '%s: replacement test used by ItemGrader.check' % (q[len('mitxgraders.'):] if q.startswith('mitxgraders.') else q)
+        src = ('%s (%s)' % (short(pred), helper.qualname.split('.')[-1])) if helper is not None else short(pred)
+        lower = [(sr, lr) for (sr, lr), v in table.items() if sr < 0 and v]
+        higher = [(sr, lr) for (sr, lr), v in table.items() if sr > 0 and not v]
+        words = {-1: 'shorter', 0: 'equally long', 1: 'longer'}
+        if lower:
+            r.violation(construct, 'the running best is replaced by a result with a LOWER score when its message is %s: the test `%s` '
+                        'falls through to the message-length comparison without requiring equal scores (the equal-score guard is lost), '
+                        'so the reported grade is not the best over the alternative answer lists'
+                        % (' or '.join(words[lr] for sr, lr in sorted(lower)), src), where,
+                        expected='replace iff score higher, or score equal and message longer', found=src)
+        elif higher:
+            r.violation(construct, 'a result with a HIGHER score does not replace the running best when its message is %s (`%s`)'
+                        % (' or '.join(words[lr] for sr, lr in sorted(higher)), src), where)
+        else:
+            r.ok(construct, 'running best: a higher score always wins, a lower score never does', where)
 
 
 # ------------------------------------------------------------------------ self-test
@@ -1415,6 +1567,35 @@ _BLANK_BLOCK = ("        if self.config['missing_error']:\n"
                 "                    msg = 'List error: Empty entries detected in positions '\n"
                 "                msg += ', '.join(map(str, bad_items))\n"
                 "                raise MissingInput(msg)\n")
+
+
+_FOO_PAD = [("    result_matrix = [[check(a, i) for a in answers] for i in student_list]\n",
+             "    pad_ans, pad_stud = get_padded_lists(answers, student_list)\n    checker = padded_check(check)\n"
+             "    result_matrix = [[checker(a, i) for a in pad_ans] for i in pad_stud]\n"),
+            ("        pad_ans, pad_stud = get_padded_lists(answers, student_list)\n        # Modify the check function to deal with the padding\n"
+             "        checker = padded_check(self.config['subgrader'].check)\n\n        # Compute the results\n        if self.config['ordered']:\n"
+             "            grade_list = [checker(*pair) for pair in zip(pad_ans, pad_stud)]\n        else:\n"
+             "            grade_list = find_optimal_order(checker, pad_ans, pad_stud)\n",
+             "        check = self.config['subgrader'].check\n        if self.config['ordered']:\n"
+             "            pad_ans, pad_stud = get_padded_lists(answers, student_list)\n            checker = padded_check(check)\n"
+             "            grade_list = [checker(*pair) for pair in zip(pad_ans, pad_stud)]\n        else:\n"
+             "            grade_list = find_optimal_order(check, answers, student_list)\n")]
+_FOO_READBACK = "    input_list = [result_matrix[i][j] for i, j in indexes]\n"
+_BEST_OLD = ("        results = []\n        for answer in answers:\n            # Iterate through each entry in the expect tuple\n"
+             "            answercopy = answer.copy()\n            for entry in answer['expect']:\n                answercopy['expect'] = entry\n"
+             "                result = self.check_response(answercopy, student_input, **kwargs)\n                results.append(result)\n\n"
+             "        # Now find the best result for the student\n        best_score = max([r['grade_decimal'] for r in results])\n"
+             "        best_results = [r for r in results if r['grade_decimal'] == best_score]\n"
+             "        best_result_with_longest_msg = max(best_results, key=lambda r: len(r['msg']))\n\n        # Add in wrong_msg if appropriate\n"
+             "        if best_result_with_longest_msg['msg'] == \"\" and best_score == 0:\n"
+             "            best_result_with_longest_msg['msg'] = self.config[\"wrong_msg\"]\n\n        return best_result_with_longest_msg\n")
+_BEST_NEW = ("        best_result = None\n        for answer in answers:\n            answercopy = answer.copy()\n"
+             "            for entry in answer['expect']:\n                answercopy['expect'] = entry\n"
+             "                result = self.check_response(answercopy, student_input, **kwargs)\n"
+             "                if best_result is None or self.is_better_result(result, best_result):\n                    best_result = result\n\n"
+             "        if best_result['msg'] == \"\" and best_result['grade_decimal'] == 0:\n            best_result['msg'] = self.config[\"wrong_msg\"]\n\n"
+             "        return best_result\n\n    @staticmethod\n    def is_better_result(result, incumbent):\n"
+             "        if result['grade_decimal'] > incumbent['grade_decimal']:\n            return True\n        return %s\n")
 
 MUTANTS = [
     # D1
@@ -1503,6 +1684,10 @@ MUTANTS = [
     Mutant('expect-items-stripped-only', LG, "        answers = expect.split(self.config['delimiter'])", "        answers = [entry.strip() for entry in expect.split(self.config['delimiter'])]", 'D6'),
     Mutant('submission-items-stripped-only', LG, "        student_list = student_input.split(self.config['delimiter'])", "        student_list = [item.strip() for item in student_input.split(self.config['delimiter'])]", 'D6'),
     Mutant('expect-empty-items-dropped', LG, "        answers = expect.split(self.config['delimiter'])", "        answers = [entry for entry in expect.split(self.config['delimiter']) if entry]", 'D6'),
+    Mutant('best-by-min', BASE, "        best_score = max([r['grade_decimal'] for r in results])", "        best_score = min([r['grade_decimal'] for r in results])", 'D9'),
+    # wave 5: refactorings with one slip (corrected forms are BENIGN twins)
+    Mutant('padding-in-callee-drops-unmatched-expected', LG, _FOO_PAD + [(_FOO_READBACK, "    input_list = [result_matrix[i][j] for i, j in indexes if i < len(student_list)]\n")], None, 'D8'),
+    Mutant('running-best-lost-equal-score-guard', BASE, _BEST_OLD, _BEST_NEW % "len(result['msg']) > len(incumbent['msg'])", 'D9'),
     # D6
     Mutant('infer-literal-delimiter', LG, "        answers = expect.split(self.config['delimiter'])", "        answers = expect.split(',')", 'D6'),
     Mutant('infer-recursion-on-self', LG, "answers[idx] = self.config['subgrader'].infer_from_expect(entry)", "answers[idx] = self.infer_from_expect(entry)", 'D6'),
@@ -1539,6 +1724,7 @@ BENIGN = [
            "return self.process_grade_list(grade_list=grade_list, num_answers=len(answers), msg=msg, grade_decimal=grade_decimal)"),
     Benign('padded-check-conditional-expression', LG, "        if isinstance(ans, _AutomaticFailure) or isinstance(inp, _AutomaticFailure):\n            return {'ok': False, 'msg': '', 'grade_decimal': 0, 'all_awarded': False}\n        return check(ans, inp)",
            "        return ({'ok': False, 'msg': '', 'grade_decimal': 0, 'all_awarded': False}\n                if isinstance(ans, _AutomaticFailure) or isinstance(inp, _AutomaticFailure) else check(ans, inp))"),
+    Benign('padding-moved-into-find-optimal-order', LG, _FOO_PAD, None),
     Benign('expect-split-through-list', LG, "        answers = expect.split(self.config['delimiter'])", "        answers = list(expect.split(self.config['delimiter']))"),
     Benign('all-awarded-list-form', LG, "all(item['grade_decimal'] > 0 for item in grade_list)", "all([item['grade_decimal'] > 0 for item in grade_list])"),
     Benign('message-guard-nested', LG, "        if all_awarded and msg != '':\n            result['msg'] = msg if result['msg'] == '' else result['msg'] + '\\n' + msg",
